@@ -32,6 +32,8 @@ func runC03(c *Ctx, r *Report) {
 	findHeadsShape(c, r, "R-C03.10")
 	r.Doc("R-C03.11", "a reopened log linearises with the comparator it was configured with")
 	optionForwarding(c, r, "R-C03.11", append(constructorLoaderSpecs(), constructorLogSpecs()...), "SortFn")
+	r.Doc("R-C03.12", "the loops of the linearisation (pushing every predecessor of a popped entry) process every element")
+	loopsComplete(c, r, "R-C03.12", func(fn *Fn) bool { return rootNamed(fn, "traverse", "values", "Values") || inPkgs(c.P, fn, "entry/sorting") }, "a predecessor is never pushed on the stack: its whole branch is missing from Values()")
 	pureMerge(c, r, "R-C03.8")
 	{
 		join := p.FuncI("", "IPFSLog", "Join")
